@@ -143,6 +143,10 @@ fn items_of(path: &std::path::Path) -> Result<Vec<Value>, String> {
             while toks.contains("  ") {
                 toks = toks.replace("  ", " ");
             }
+            // "(a , b ,)" minus its trailing comma must read like "(a , b)"
+            for close in [")", "]"] {
+                toks = toks.replace(&format!(" {close}"), close);
+            }
             json!([kind, name, toks])
         })
         .collect())
@@ -210,13 +214,50 @@ fn history(req: &Value) -> Value {
                 }
             }
             "edit" => {
+                // a user edit of one item: the item keeps its name (that is what identifies
+                // it), its text changes.  how: body | generic | attr | doc | vis | newtype
                 let name = step["name"].as_str().unwrap().to_string();
+                let how = step.get("how").and_then(|x| x.as_str()).unwrap_or("body").to_string();
                 if let Err(e) = rewrite(&actions, |f| {
                     for it in f.items.iter_mut() {
-                        if let syn::Item::Fn(func) = it {
-                            if func.sig.ident == name {
-                                func.block = Box::new(syn::parse_quote!({ todo!("edited by the user") }));
-                            }
+                        if item_key(it).1 != name {
+                            continue;
+                        }
+                        let attr: syn::Attribute = match how.as_str() {
+                            "doc" => syn::parse_quote!(#[doc = " edited by the user"]),
+                            _ => syn::parse_quote!(#[allow(dead_code, clippy::all)]),
+                        };
+                        match it {
+                            syn::Item::Fn(func) => match how.as_str() {
+                                "generic" => func.sig.generics = syn::parse_quote!(<'user, const N: usize>),
+                                "attr" | "doc" => func.attrs.push(attr),
+                                "vis" => func.vis = syn::parse_quote!(pub(crate)),
+                                _ => func.block = Box::new(syn::parse_quote!({ todo!("edited by the user") })),
+                            },
+                            syn::Item::Type(t) => match how.as_str() {
+                                "generic" => t.generics = syn::parse_quote!(<T = i64>),
+                                "attr" | "doc" => t.attrs.push(attr),
+                                "vis" => t.vis = syn::parse_quote!(pub(crate)),
+                                "newtype" => {
+                                    let id = t.ident.clone();
+                                    let ty = t.ty.clone();
+                                    *it = syn::parse_quote!(pub struct #id(pub #ty););
+                                }
+                                _ => t.ty = Box::new(syn::parse_quote!(UserType)),
+                            },
+                            syn::Item::Struct(st) => match how.as_str() {
+                                "generic" => st.generics = syn::parse_quote!(<T = ()>),
+                                "attr" | "doc" => st.attrs.push(attr),
+                                "vis" => st.vis = syn::parse_quote!(pub(crate)),
+                                _ => st.attrs.push(syn::parse_quote!(#[derive(PartialEq)])),
+                            },
+                            syn::Item::Enum(en) => match how.as_str() {
+                                "generic" => en.generics = syn::parse_quote!(<T = ()>),
+                                "attr" | "doc" => en.attrs.push(attr),
+                                "vis" => en.vis = syn::parse_quote!(pub(crate)),
+                                _ => en.variants.push(syn::parse_quote!(UserVariant)),
+                            },
+                            _ => {}
                         }
                     }
                 }) {
